@@ -8,7 +8,8 @@ import core
 
 THEOREMS = ["InfOCF.C10_parse_iff", "InfOCF.parseFm_sound", "InfOCF.parseFm_complete", "InfOCF.D_unique", "InfOCF.C10_precedence",
             "InfOCF.C10_reject_iff", "InfOCF.C10_print_parse", "InfOCF.C10_eval_and_or", "InfOCF.C10_text_roundtrip", "InfOCF.lex_unlex", "InfOCF.C10_conditions_order", "InfOCF.parseFmPrefix_fmToks", "InfOCF.C10_base_roundtrip", "InfOCF.lex_unlex_all",
-            "InfOCF.C10_conditions_sound", "InfOCF.parseFmPrefix_sound", "InfOCF.C10_block_sound", "InfOCF.C10_file_sound", "InfOCF.parseIds_sound"]
+            "InfOCF.C10_conditions_sound", "InfOCF.parseFmPrefix_sound", "InfOCF.C10_block_sound", "InfOCF.C10_file_sound", "InfOCF.parseIds_sound",
+            "InfOCF.C10_conditions_complete", "InfOCF.C10_conditions_iff", "InfOCF.C10_conditions_reject", "InfOCF.parseFmPrefix_complete"]
 RULE = ("generated texts: formulas of nesting depth 0-5 printed with minimal / redundant parentheses, random blanks, tabs, // and /* */ "
         "comments; belief-base files (signature, 1-2 blocks, 0-6 conditionals, blank lines, comments) and query lists; about 35% are "
         "mutated (token deleted / duplicated / swapped, illegal character, trailing text, missing separator, early end, unterminated "
